@@ -613,6 +613,12 @@ func norm(ev chain.M) chain.M {
 	if _, ok := ev["okres"]; ok {
 		o["okres"] = chain.Bool(ev, "okres")
 	}
+	// the result the author of the behaviour predicted (used only to name
+	// contexts created earlier in the same block); dropped before logging
+	o["pok"] = true
+	if _, ok := ev["ok"]; ok {
+		o["pok"] = chain.Bool(ev, "ok")
+	}
 	ps := []any{}
 	for _, p := range strList(ev, "provs") {
 		ps = append(ps, p)
@@ -783,6 +789,7 @@ func (e *env) runMod(ctx sdk.Context, a *modAction) {
 }
 
 func (e *env) emit(ev chain.M, st any) {
+	delete(ev, "pok")
 	e.lines = append(e.lines, line{ev, st})
 	if m, ok := st.(chain.M); ok {
 		e.last = m
@@ -896,7 +903,7 @@ func (e *env) predict(ev chain.M, tx chain.Tx, seqs map[string]uint64, created *
 		return
 	}
 	n := chain.Str(ev, "name")
-	if (n == "Call" || n == "ModCall") && chain.Bool(ev, "ok") {
+	if pok, has := ev["pok"]; (n == "Call" || n == "ModCall") && (!has || pok.(bool)) {
 		idx := make([]byte, 8)
 		binary.BigEndian.PutUint64(idx, uint64(*created))
 		real := strings.ToUpper(hexSha(bz) + hex.EncodeToString(idx))
